@@ -642,6 +642,9 @@ _add("C11", rule="strangers (another host, another port, another address family)
      probes=["strangers_sending_to_connected_sockets", "dual_stack_sockets_connected_to_an_ipv4_peer", "concurrent_writes_on_one_socket"])
 _add("C13", rule="a fifth of the runs own an IPv4 subnet (32.1.13.0/24) and are pinged at an unassigned IPv6 address whose first four bytes lie inside it",
      probes=["ipv6_requests_to_an_address_resembling_the_ipv4_subnet"])
+_add("C08", rule="(API) must-deliver is suspended only when an upper bound of the bytes held at any moment (fragments handed in, minus those a returned "
+     "delivery released) exceeds the high limit - not when the total that went through does",
+     probes=["more_bytes_than_the_limit_went_through_without_pressure"])
 _add("C19", rule="an assertion made before the waker's current attachment counts: a waker stays asserted across Done and AddWaker")
 
 
